@@ -130,7 +130,7 @@ structure Rows where
   g : List Rat
   lb : List XVal
   ub : List XVal
-deriving Repr
+deriving DecidableEq, Repr
 
 def Rows.append (a b : Rows) : Rows := ⟨a.g ++ b.g, a.lb ++ b.lb, a.ub ++ b.ub⟩
 
